@@ -77,6 +77,32 @@ theorem floor_le_ceil (n : BitVec 64) (h1 : 2 < n.toInt) (h2 : n.toInt ≤ 2 ^ 6
   refine ⟨f, c, hf, hc, hfl, by omega, hfu, ?_⟩
   exact hmin (2 * f.toInt) ⟨k + 1, by rw [hk, Int.pow_succ]; omega⟩ (by omega)
 
+/-- rounding up is monotone (a larger request never gets a smaller capacity) -/
+theorem ceil_monotone (n m : BitVec 64) (hnm : n.toInt ≤ m.toInt) (hm : m.toInt ≤ 2 ^ 62) :
+    ∃ a b, Gen.CeilToPowerOfTwo n = some a ∧ Gen.CeilToPowerOfTwo m = some b ∧ a.toInt ≤ b.toInt := by
+  obtain ⟨a, ha, _, _, hmin⟩ := Proofs.Arith.ceil_spec n (by omega)
+  obtain ⟨b, hb, hpb, hgeb, _⟩ := Proofs.Arith.ceil_spec m hm
+  exact ⟨a, b, ha, hb, hmin _ hpb (by omega)⟩
+
+/-- rounding down is monotone over the whole `int` range (including `n ≤ 2`, returned unchanged) -/
+theorem floor_monotone (n m : BitVec 64) (hnm : n.toInt ≤ m.toInt) :
+    ∃ a b, Gen.FloorToPowerOfTwo n = some a ∧ Gen.FloorToPowerOfTwo m = some b ∧ a.toInt ≤ b.toInt := by
+  obtain ⟨a, ha, ha1, ha2⟩ := Proofs.Arith.floor_spec n
+  obtain ⟨b, hb, hb1, hb2⟩ := Proofs.Arith.floor_spec m
+  refine ⟨a, b, ha, hb, ?_⟩
+  by_cases hn : n.toInt ≤ 2
+  · have := ha1 hn; subst this
+    by_cases hm : m.toInt ≤ 2
+    · have := hb1 hm; subst this; exact hnm
+    · obtain ⟨_, _, _⟩ := hb2 (by omega); omega
+  · obtain ⟨⟨i, hi⟩, hal, _⟩ := ha2 (by omega)
+    obtain ⟨⟨j, hj⟩, _, hbu⟩ := hb2 (by omega)
+    rw [hi, hj] at *
+    have h : (2 : Int) ^ i < 2 ^ (j + 1) := by rw [Int.pow_succ]; omega
+    have h' : (2 : Nat) ^ i < 2 ^ (j + 1) := by exact_mod_cast h
+    have : i < j + 1 := (Nat.pow_lt_pow_iff_right (by decide)).mp h'
+    have : (2 : Nat) ^ i ≤ 2 ^ j := Nat.pow_le_pow_right (by decide) (by omega)
+    exact_mod_cast this
 /-- byte-slice pool size class: the smallest class whose capacity `2^i` is at least the size -/
 theorem bs_index_spec (s : BitVec 32) (h1 : 1 ≤ s.toNat) (h2 : s.toNat ≤ 2 ^ 31) :
     ∃ i, Gen.bsIndex s = some i ∧ s.toNat ≤ 2 ^ i.toNat ∧ ∀ j : Nat, s.toNat ≤ 2 ^ j → i.toNat ≤ j :=
